@@ -275,6 +275,20 @@ class Executor(ExprMixin, StmtMixin, Engine):
         if isinstance(base.t, TList):
             yield from self.list_call(node, f, base, name, st)
             return
+        if isinstance(base.t, TDict):
+            if name != 'get':
+                raise OutOfSubset('dict method %s' % name, node)
+            for s1, a in self.ev_args(node, st):
+                if isinstance(a, Exc):
+                    yield s1, a
+                    continue
+                pos, kw = a
+                if kw or not 1 <= len(pos) <= 2 or (len(pos) == 2 and not isinstance(pos[1].t, TNone)):
+                    raise OutOfSubset('dict.get with a default other than None', node)
+                # d.get(k) / d.get(k, None): the cell of the total map key -> Optional[value]
+                k = self.coerce(pos[0], base.t.k)
+                yield s1, Val(TOpt(base.t.v), z3.Select(base.e, k.e))
+            return
         if isinstance(base.t, TRef):
             key = self.method_key(base.t.cls, name)
             if key is None and self.field_owner(base.t.cls, name) is not None:
